@@ -21,15 +21,19 @@ NA_TEXT = ('deciding code is text emission through write!/format! into dyn Write
 
 PROPS = {
     'C11': {
-        'units': ['topo'],
+        'units': ['topo', 'deps'],
         'title': 'definitions emitted exactly once each and after the definitions they use',
-        'technique': 'Verus function contracts + loop invariants + decreases on toposort_impl/inner and sort_by_indices extracted verbatim',
+        'technique': 'Verus function contracts + loop invariants + decreases on toposort_impl/inner and sort_by_indices, and contracts on the six '
+                     'dependency-collector functions over the real RustType/RustItem definitions, all extracted verbatim',
         'level_text': 'For every in-range reference graph (cycles included, no size bound) toposort_impl returns a permutation of 0..n, and '
                       'on every acyclic graph each node comes after all nodes it refers to; sort_by_indices applies any permutation to any '
                       'slice without losing or duplicating an element; both terminate and never index out of bounds. Proved by Verus on the '
-                      'function texts re-extracted from /repo on every run.',
-        'level_note': 'Relative to the computed graph: the dependency collector (get_dependencies*) and the writer loops are not under contract. '
-                      'Assumed: std contracts of <[T]>::contains, <[T]>::swap; two outlined expressions (iter().position, (0..n).collect()).',
+                      'function texts re-extracted from /repo on every run. The dependency collector records, for every item, every same-file type '
+                      'its type trees mention - through Vec / array / slice / Option / HashMap / generic arguments at any depth, in struct fields, '
+                      'tuple and struct variants, alias targets and const types.',
+        'level_note': 'Not under contract: the glue in topsort() that turns names into indices (iterator chains) and the writer loops. The collector\'s '
+                      'termination is not proved. Assumed: std contracts of <[T]>::contains / swap, HashMap/HashSet (vstd) with the String key-model axiom; '
+                      'outlined expressions (iter().position, (0..n).collect(), to_string()).',
         'design_ref': 'DESIGN.md section 5 C11',
     },
 }
@@ -113,7 +117,7 @@ PROPS['C17'] = {
     'design_ref': 'DESIGN.md section 5 C17',
 }
 PROPS['C07'] = {
-    'units': ['rename', 'topo', 'cfg', 'cfg_all', 'merge', 'write', 'tos'], 'kani': ['kint'],
+    'units': ['rename', 'topo', 'cfg', 'cfg_all', 'merge', 'write', 'tos', 'deps'], 'kani': ['kint'],
     'title': 'never panics or spins (kernel)',
     'technique': 'panic-freedom (unwrap/index/slice/overflow/callee preconditions) and termination (decreases) obligations of every function put under '
                  'contract for the other properties, with weakest preconditions (Verus); Kani overflow/cast checks on integer.rs',
@@ -141,6 +145,7 @@ PROPS['C13'] = {
     'design_ref': 'DESIGN.md section 5 C13',
 }
 PROPS['C07']['units'].append('tos')
+PROPS['C07']['units'].append('deps')
 
 NOT_APPLICABLE = {k: NA_TEXT for k in ['C01', 'C02', 'C04', 'C05', 'C08', 'C09', 'C10', 'C12', 'C14', 'C15', 'C19']}
 
